@@ -92,7 +92,8 @@ class SymCtx:
             self.results.append((label, "unknown", None))
             return True
         if cond:
-            self.results.append((label, "discharged", None))
+            # concretely true on this path; the path itself exists only because the solver found it feasible
+            self.results.append((label, "discharged", "solver" if self.ex.decisions else None))
             return True
         inp = self._extract(self.ex.model)
         self.results.append((label, "violated" if inp is not None else "unknown", inp))
